@@ -102,6 +102,7 @@ class Module:
         fn = self.func(qual)
         ct = self.ctypes.get(qual)
         inlined = False
+        expanded = []
         if not self.rel.endswith(".pyx"):
             from .inline import inline_new_helpers
             fn, expanded = inline_new_helpers(self, qual, fn)
@@ -116,7 +117,10 @@ class Module:
         if roles and not self.rel.endswith(".pyx"):
             from .roles import canonicalise
             fn, _ = canonicalise(self.text, fn, roles, synthetic=inlined)
-        return Ev(fn, self.ctx, ctypes=ct, **kw).run()
+        ev = Ev(fn, self.ctx, ctypes=ct, **kw).run()
+        ev.inlined_helpers = list(expanded)      # helpers (new to the rule set) whose bodies were expanded into this function
+        ev.fn = fn                                # the syntax tree that was evaluated (after expansion and role renaming)
+        return ev
 
     def seg(self, node) -> str:
         try:
